@@ -4,3 +4,6 @@ import SqliteDissect.Basic
 import SqliteDissect.Model.RegexCost
 import SqliteDissect.Proofs.RegexCost
 import SqliteDissect.Properties.C18Regex
+import SqliteDissect.Model.SchemaRows
+import SqliteDissect.Proofs.C07Rows
+import SqliteDissect.Properties.C07Rows
